@@ -112,18 +112,18 @@ type Session struct {
 	Recs        [2][]RecInfo
 	Alerts      [2][][2]byte // plaintext or decrypted alerts
 	CloseNotify [2]bool
-	Complete    bool // both Finished verified
+	Complete    bool      // both Finished verified
 	Stopped     [2]string // Tolerant: why decoding of a direction stopped
 	Transcript  []byte
 }
 
 type dirState struct {
-	recs     []Record
-	i        int
-	half     *Half
-	hsBuf    []byte
-	queue    []HsMsg
-	stopped  string
+	recs    []Record
+	i       int
+	half    *Half
+	hsBuf   []byte
+	queue   []HsMsg
+	stopped string
 }
 
 // nextHS returns the next handshake message of a direction, reading records
